@@ -101,7 +101,7 @@ def _rand_shard(seed, n, known, confirm_every):
 
 def run(ctx):
     n = core.NPROC
-    nrand = ctx.pick(1600, 60000)
+    nrand = ctx.pick(1600, 30000)
     jobs = [(ctx.shard_seed("rand", i), nrand // n, ctx.known_sigs, ctx.pick(8, 1)) for i in range(n)]
     res = core.merge_results(core.pool_map(_rand_shard, jobs))
     res.exhaustive = False
